@@ -712,6 +712,9 @@ impl Sim {
                     } else {
                         self.reqs[i].marked = None;
                     }
+                } else if trusted {
+                    // a reply the harness built itself and that fails an earlier gate (fingerprint): it must leave no trace,
+                    // so the model marker stays as it is and a disturbed marker shows in the final failure reason
                 } else if !trusted || !gates_ok {
                     // hostile input: whether it got as far as the credential check is not modelled
                     if matches!(self.cfg.mech, Mech::ShortTerm(_)) && self.cfg.reliable.is_none() {
